@@ -693,6 +693,7 @@ func (e *schedEngine) Exec(tr *Trace, x *X) {
 		}
 	case "inter":
 		s := NewSched(x, c.Clients, sw)
+		s.Monitor = true
 		plane.yield = s.Yield
 		setYieldHook(s.Yield)
 		setBlockHook(s.Blocked)
@@ -714,6 +715,14 @@ func (e *schedEngine) Exec(tr *Trace, x *X) {
 		plane.yield = nil
 		setYieldHook(nil)
 		setBlockHook(nil)
+		if s.Nondet {
+			x.Nondet = true
+		}
+		if s.Deadlock != "" {
+			x.Fail("sched.deadlock", len(ops)-1, c.Object, "concurrent read-only operations do not finish: %s", s.Deadlock)
+			x.Viol.Sig = map[string]string{"mode": c.Mode, "object": c.Object}
+			return
+		}
 		x.Steps += s.nyield
 		x.SchedKey = s.key()
 		x.Probes["yields"] += s.nyield
